@@ -6,7 +6,8 @@ Decided from the syntax trees of hail/python/hail/vds/combiner/{variant_dataset_
   R2  the saved plan is complete and loadable: every serialised slot is written by `to_dict` under the name of the `__init__`
       parameter that restores it (found with property setters and helpers inlined, locals followed), a serialised slot that __init__ sets
       from no parameter is "never restored", every key is an `__init__` parameter, required parameters are all written, every value
-      `to_dict` transforms has its inverse in `Decoder._object_hook` and the hook does not rewrite a raw key
+      `to_dict` transforms has its inverse in `Decoder._object_hook` and the hook does not rewrite a raw key; a list-valued slot is written whole
+      (no slice, no filter, a binned slot flattened over all its bins) and the hook's comprehensions run over all saved entries
   R3  `run` saves before every `step` and after the last one, returns only after `finished` was true, `step` always runs a step function
       unless finished, `finished` tests every pending list; `save` dumps into open(save path, 'w'); save/load go through
       Encoder -> to_dict and Decoder -> _object_hook -> VariantDatasetCombiner(**obj)
@@ -26,13 +27,22 @@ Decided from the syntax trees of hail/python/hail/vds/combiner/{variant_dataset_
       only with a concrete witness found by evaluating the same statements on boundary values; otherwise the rule declines
   R8  exactly-once bookkeeping inside a step: the slice taken for merging and the slice kept partition the pending list (complementary
       bounds, take before keep), parallel lists advance in lockstep and are validated to have equal length, the chunking loop partitions the
-      batch, and the constructor keeps every input it is given
+      batch, and the constructor keeps every input it is given: whole store / unconditional append of every element (over the list or a reordered
+      copy); a regrouping into bins (groupby -> dict, keyed dict comprehension, per-element store that replaces the bin) is lossless only when it
+      is order-insensitive (groupby over the list sorted by the same key, runs extended into their bin) - an order-sensitive regrouping is
+      compared with its producers: the bin under which every step stores an entry (normal form, helpers and locals inlined) against the
+      constructor's key of that entry, and the order in which to_dict lists the bins
   R9  the final dataset is written only under `finished`; otherwise the merged dataset is written, then recorded in the plan under the path
       it was written to; a step never returns normally having done neither
   R10 nothing a saved plan may still reference is deleted before `finished` (plan entries' paths, a directory containing an intermediate, the
       plan file) - symbolic prefix comparison against the intermediate paths of R6
   R11 new_combiner: every argument that defines the plan feeds the digest that names the generated save path (a plan found there belongs to
       the same inputs), and the digest is part of that path
+  R12 crash consistency of the saved plan: a step takes its inputs out of the plan first and records the merged dataset (or writes the output)
+      last; the region in between is computed on the CFG of each step function (helpers inlined, exceptional edges included).  No save call
+      (self.save(), a helper that saves, json.dump(self)) lies in that region; no save is reachable in any caller (run, step ...) from the
+      exceptional exit of a call that can fail half-way (finally block, except handler, retry loop) - decided on the callers' CFGs, a path
+      guarded only by a local flag is declined; and no step function returns normally with the region open (failure swallowed)
 R4/R5 evaluate the *extracted* statements of `calc_parts` with our own exact-integer interpreter, exhaustively over
 1 <= L, S <= 80 (200 in the thorough tier), on the mitochondrial contigs of GRCh37/GRCh38 for sizes 100..200, and on a few
 probe points on large real contigs.  Findings are keyed by failure kind (last base uncovered / gap / overlap / too long ...).
@@ -55,7 +65,9 @@ META = dict(
     text='Reader/writer agreement of the combiner\'s saved plan (slots <-> to_dict <-> __init__ <-> decoder hook), save/step/finished control flow of run and step, '
          'symbolic freshness analysis of every intermediate output path across save/resume, between steps and within a step, interval analysis (with concrete '
          'witnesses) of the batch size / branch factor through all their writers incl. property setters and the resume path, take/keep slice partition of the '
-         'pending lists, plan identity of the generated save path, and an exhaustive small-domain evaluation (6400 (length, size) pairs + real mitochondrial contigs) '
+         'pending lists, losslessness of the constructor\'s re-binning against the bins the steps store under, crash consistency of every save site '
+         '(no save while a step has taken its inputs out of the plan and not yet recorded the result - inside the step, in finally/except/retry paths of its callers), '
+         'plan identity of the generated save path, and an exhaustive small-domain evaluation (6400 (length, size) pairs + real mitochondrial contigs) '
          'of the extracted partitioning loop by our own exact-integer interpreter. Structural necessary conditions; the merge itself needs the engine, hence "other".',
     note='Trusted: CPython ast; engines/c38facts.py (symbolic path values, interval + concrete evaluators, setter inlining on top of engines/inline.py) and the 40-line '
          'interpreter in this module (exact rationals for `/`, so float rounding of math.ceil(L / S) is not modelled). Closed tables: fresh sources (uuid4, urandom, clocks ...), '
@@ -260,6 +272,13 @@ def check_roundtrip(ctx: Ctx, m: pf.Module, cls: ast.ClassDef, ser: List[str]) -
         rd = {n.attr for n in ast.walk(v) if isinstance(n, ast.Attribute) and isinstance(n.value, ast.Name) and n.value.id == 'self'}
         ctx.check(rd == {s}, 'R2', cons, f'to_dict writes key `{p}` from {sorted("self." + x for x in rd)} but __init__ restores parameter `{p}` into `self.{s}`: '
                   f'after a reload the plan continues with another field\'s value', m.path, v.lineno)
+        # ... and every entry of a list-valued slot is written (no slice, no filter; a binned slot is flattened over all its bins)
+        if rd == {s}:
+            lost = _listing_problem(v, s)
+            if lost is not None:
+                ctx.need(lost != '?', f'{cons}: how to_dict lists the entries of self.{s} is not recognised: `{pf.nsrc(v)[:80]}`')
+                ctx.bad('R2', cons + '::lists every entry', f'to_dict writes `{p}` as `{pf.nsrc(v)[:90]}`: {lost}, so the saved plan does not list every pending entry of '
+                        f'self.{s} - a run resumed from it never merges the missing ones', m.path, v.lineno)
     # (b) every key is a parameter, (c) required parameters are written
     for k, v in keys.items():
         if k == 'name':
@@ -308,6 +327,16 @@ def check_roundtrip(ctx: Ctx, m: pf.Module, cls: ast.ClassDef, ser: List[str]) -
                         srcs |= {pf.nsrc(n) for n in ast.walk(dv) if isinstance(n, ast.Subscript)}
             ok = f"obj['{k}']" in srcs or any(isinstance(g, ast.comprehension) and pf.nsrc(g.iter) == f"obj['{k}']" for g in ast.walk(rv))
             inv = _inverse_ok(k, v, rv, local_defs)
+            # a comprehension that rebuilds the entries must run over all of them
+            for g in [g for g in ast.walk(rv) if isinstance(g, ast.comprehension) and f"obj['{k}']" in {pf.nsrc(n) for n in ast.walk(g.iter)}]:
+                it = g.iter
+                while isinstance(it, ast.Call) and pf.dotted(it.func) in ('list', 'tuple', 'iter') and len(it.args) == 1:
+                    it = it.args[0]
+                part = f'filters the saved entries (`if {pf.nsrc(g.ifs[0])[:40]}`)' if g.ifs else \
+                    f'runs over `{pf.nsrc(it)[:40]}` only' if isinstance(it, ast.Subscript) and isinstance(it.slice, ast.Slice) else None
+                ctx.need(part is not None or pf.nsrc(it) == f"obj['{k}']", f'{cons}: unrecognised iteration `{pf.nsrc(g.iter)[:50]}`')
+                if part is not None and inv is None:
+                    inv = f'the decoder rebuilds `{k}` with `{pf.nsrc(rv)[:70]}`, which {part}: entries of the saved plan are dropped on every reload and never merged'
             ctx.check(ok and inv is None, 'R2', cons, (inv or f'the decoder rewrites obj[\'{k}\'] from {sorted(srcs)} instead of from the saved value of `{k}`') +
                       ': the reloaded plan differs from the saved one', m.path, rv.lineno)
         elif k in wraps_set and not (k in ENCODER_TYPED):
@@ -322,6 +351,48 @@ def check_roundtrip(ctx: Ctx, m: pf.Module, cls: ast.ClassDef, ser: List[str]) -
     ok = len(calls) == 1 and not calls[0].args and len(calls[0].keywords) == 1 and calls[0].keywords[0].arg is None and pf.nsrc(calls[0].keywords[0].value) == 'obj'
     dels = [pf.nsrc(t) for st in pf.walk_shallow(hook) if isinstance(st, ast.Delete) for t in st.targets]
     ctx.check(ok and "obj['name']" in dels, 'R2', f'{F}::Decoder._object_hook::constructs', f'the hook must delete obj[\'name\'] and return {CLS}(**obj)', m.path, hook.lineno)
+
+
+
+def _listing_problem(v: ast.AST, slot: str) -> Optional[str]:
+    """Problem text when the to_dict value visibly lists only part of self.<slot>; '?' when a listing over the slot is not recognised; None when
+    the value is the slot itself, a whole-copy of it, or a recognised complete listing."""
+    e = v
+    if isinstance(e, ast.IfExp):  # `None if self.x is None else list(self.x)`
+        a, b = _listing_problem(e.body, slot), _listing_problem(e.orelse, slot)
+        return a if a not in (None, '?') else b if b not in (None, '?') else (a or b)
+    while isinstance(e, ast.Call) and pf.dotted(e.func) in ('list', 'tuple', 'sorted', 'set') and len(e.args) == 1:
+        e = e.args[0]
+    if isinstance(e, ast.Subscript) and isinstance(e.slice, ast.Slice) and cf.self_attr(e.value) == slot and (e.slice.lower is not None or e.slice.upper is not None
+                                                                                                               or e.slice.step is not None):
+        return f'only the slice `{pf.nsrc(e)[:50]}` is written'
+    if isinstance(e, (ast.ListComp, ast.GeneratorExp, ast.SetComp)):
+        if len(e.generators) == 1:
+            g = e.generators[0]
+            it = g.iter
+            while isinstance(it, ast.Call) and pf.dotted(it.func) in ('list', 'tuple', 'sorted', 'reversed') and len(it.args) == 1:
+                it = it.args[0]
+            if cf.self_attr(it) == slot:
+                return f'the comprehension filters the entries (`if {pf.nsrc(g.ifs[0])[:50]}`)' if g.ifs else None
+            if isinstance(it, ast.Subscript) and isinstance(it.slice, ast.Slice) and cf.self_attr(it.value) == slot:
+                return f'only `{pf.nsrc(it)[:50]}` is written'
+            return '?'
+        fl = _flatten_of(v, slot)
+        return None if fl == 'all' else '?' if fl is None else fl
+    if isinstance(e, ast.Call) and (pf.dotted(e.func) or '').endswith('chain.from_iterable'):
+        fl = _flatten_of(v, slot)
+        return None if fl == 'all' else '?' if fl is None else fl
+    return None
+
+
+
+def _without_lambdas(e: ast.AST) -> ast.AST:
+    import copy as _copy
+
+    class _T(ast.NodeTransformer):
+        def visit_Lambda(self, node):
+            return ast.copy_location(ast.Constant(value=None), node)
+    return _T().visit(_copy.deepcopy(e))
 
 
 def _init_param_map(m: pf.Module, init: pf.FuncDef):
@@ -366,6 +437,15 @@ def _init_param_map(m: pf.Module, init: pf.FuncDef):
                 wraps_set.add(p)
         elif not used:
             unrestored[attr] = pf.nsrc(nodes[-1].value)[:60]
+    # `self._vdses.update(<expression over vdses>)` / `.extend(vdses)`: parameter consumed through a mutator call on the slot
+    for attr, node, how in _mutations(init_i):
+        if isinstance(node, ast.Call) and how.startswith('mutated by') and attr not in param_of_slot:
+            # (key functions passed as lambdas may read further parameters - they select nothing, so they are not followed)
+            ps = sorted({q for a in list(node.args) + [k.value for k in node.keywords] for q in roots(_without_lambdas(a))})
+            if len(ps) == 1 and not any(isinstance(x, (ast.For, ast.While)) and any(y is node for y in ast.walk(x)) for x in pf.walk_shallow(init_i)):
+                slot_of_param.setdefault(ps[0], attr)
+                param_of_slot[attr] = ps[0]
+                unrestored.pop(attr, None)
     # `for vds in vdses: self._vdses[...].append(vds)`: parameter consumed through a loop
     for st in pf.walk_shallow(init_i):
         if isinstance(st, ast.For):
@@ -927,9 +1007,19 @@ def _step_roots(cm: cf.ClassModel) -> List[str]:
     if step is None:
         raise AnalysisError(f'anchor vanished: {CLS}.step')
     out: List[str] = []
+
+    def mutates_state(name: str, seen: Tuple[str, ...] = ()) -> bool:
+        f = cm.methods.get(name)
+        if f is None or name in seen:
+            return False
+        if _mutations(f):
+            return True
+        return any(isinstance(c.func, ast.Attribute) and cf.self_attr(c.func) is not None and mutates_state(cf.self_attr(c.func), seen + (name,))  # type: ignore[arg-type]
+                   for c in pf.calls_in(f))
     for c in pf.calls_in(step):
         a = cf.self_attr(c.func) if isinstance(c.func, ast.Attribute) else None
-        if a is not None and a in cm.methods and a not in out:
+        # a step function changes the object; `self.save()`, logging helpers ... called from step() are not step functions
+        if a is not None and a in cm.methods and a not in out and mutates_state(a):
             out.append(a)
     return out
 
@@ -1575,6 +1665,287 @@ def check_chunking(ctx: Ctx, m: pf.Module, roots: List[_Root]) -> None:
                               f'entries between two chunks are in no dataset, or entries are in two (chunk stride `{k}`)', m.path, sub.lineno)
 
 
+
+# ---- regrouping of a flat list of plan entries into bins (constructor) ----------------------------------------------------------------
+class _Sub(ast.NodeTransformer):
+    """Replace loads of the given names by expressions (copies)."""
+
+    def __init__(self, mapping: Dict[str, ast.AST]):
+        self.mapping = mapping
+
+    def visit_Name(self, node: ast.Name):
+        if isinstance(node.ctx, ast.Load) and node.id in self.mapping:
+            import copy as _copy
+            return ast.copy_location(_copy.deepcopy(self.mapping[node.id]), node)
+        return node
+
+    def visit_Lambda(self, node):
+        return node
+
+
+def _subst(e: ast.AST, mapping: Dict[str, ast.AST]) -> ast.AST:
+    import copy as _copy
+    return ast.fix_missing_locations(_Sub(mapping).visit(_copy.deepcopy(e)))
+
+
+def _expr_helper(cm: cf.ClassModel, name: str) -> Optional[Tuple[List[str], ast.expr]]:
+    """(parameter names, returned expression) of a plain method whose body is `return <expr>`."""
+    h = cm.methods.get(name)
+    if h is None or h.decorator_list or h.args.vararg or h.args.kwarg or h.args.kwonlyargs or not h.args.args:
+        return None
+    body = cf._strip_doc(h.body)
+    if len(body) != 1 or not isinstance(body[0], ast.Return) or body[0].value is None:
+        return None
+    recv = h.args.args[0].arg
+    ret = body[0].value if recv == 'self' else _subst(body[0].value, {recv: ast.Name(id='self', ctx=ast.Load())})
+    return [a.arg for a in h.args.args[1:]], ret
+
+
+class _InlineExprHelpers(ast.NodeTransformer):
+    """`self.h(a, b)` -> the returned expression of h with its parameters substituted (expression helpers only, bounded depth)."""
+
+    def __init__(self, cm: cf.ClassModel, depth: int = 3):
+        self.cm, self.depth = cm, depth
+
+    def visit_Call(self, node: ast.Call):
+        self.generic_visit(node)
+        a = cf.self_attr(node.func) if isinstance(node.func, ast.Attribute) else None
+        if a is None or self.depth <= 0 or node.keywords:
+            return node
+        h = _expr_helper(self.cm, a)
+        if h is None or len(h[0]) != len(node.args):
+            return node
+        return _InlineExprHelpers(self.cm, self.depth - 1).visit(_subst(h[1], dict(zip(h[0], node.args))))
+
+
+def _key_function(e: ast.AST, cm: cf.ClassModel) -> Optional[Tuple[str, ast.AST]]:
+    """(element parameter, key expression) of `lambda v: E` or of a bound expression helper `self.h`."""
+    if isinstance(e, ast.Lambda) and len(e.args.args) == 1 and not e.args.kwonlyargs and not e.args.vararg:
+        return e.args.args[0].arg, e.body
+    a = cf.self_attr(e)
+    if a is not None:
+        h = _expr_helper(cm, a)
+        if h is not None and len(h[0]) == 1:
+            return h[0][0], h[1]
+    return None
+
+
+def _key_nf(e: ast.AST, cm: cf.ClassModel) -> str:
+    e = _InlineExprHelpers(cm).visit(_subst(e, {}))
+    cf.resolve_property_reads(ast.FunctionDef(name='_', args=ast.arguments(posonlyargs=[], args=[ast.arg(arg='self')], kwonlyargs=[], kw_defaults=[], defaults=[]),
+                                              body=[ast.Expr(value=e)], decorator_list=[]), cm.getter_alias())
+    return _norm_arith(e)
+
+
+def _regroup(v: ast.AST, p: str, cm: cf.ClassModel):
+    """Recognise a constructor expression that distributes the elements of parameter `p` over bins:
+         defaultdict(list, {k: list(g) for k, g in groupby(IT, key=K)})      -> ('groupby', element var, key expr, IT)
+         {K(v): [v] for v in p} / {K(v): v for v in p}                       -> ('keyed', element var, key expr, p)
+    (dict(...) / defaultdict(list, ...) wrappers stripped); None when the expression is something else."""
+    while isinstance(v, ast.Call):
+        d = (pf.dotted(v.func) or '').split('.')[-1]
+        if d == 'defaultdict' and len(v.args) == 2 and not v.keywords:
+            v = v.args[1]
+        elif d == 'dict' and len(v.args) == 1 and not v.keywords:
+            v = v.args[0]
+        else:
+            break
+    if not isinstance(v, ast.DictComp) or len(v.generators) != 1:
+        return None
+    gen = v.generators[0]
+    if gen.ifs or gen.is_async:
+        return None
+    it = gen.iter
+    if isinstance(it, ast.Call) and (pf.dotted(it.func) or '').split('.')[-1] == 'groupby' and isinstance(gen.target, ast.Tuple) and len(gen.target.elts) == 2 \
+            and all(isinstance(x, ast.Name) for x in gen.target.elts):
+        kvar, gvar = gen.target.elts[0].id, gen.target.elts[1].id  # type: ignore[attr-defined]
+        keyarg = it.args[1] if len(it.args) > 1 else next((k.value for k in it.keywords if k.arg == 'key'), None)
+        whole_run = (isinstance(v.value, ast.Call) and pf.dotted(v.value.func) in ('list', 'tuple') and len(v.value.args) == 1 and isinstance(v.value.args[0], ast.Name)
+                     and v.value.args[0].id == gvar) or (isinstance(v.value, ast.List) and len(v.value.elts) == 1 and isinstance(v.value.elts[0], ast.Starred)
+                                                        and isinstance(v.value.elts[0].value, ast.Name) and v.value.elts[0].value.id == gvar)
+        if not (it.args and keyarg is not None and isinstance(v.key, ast.Name) and v.key.id == kvar and whole_run):
+            return None
+        kf = _key_function(keyarg, cm)
+        if kf is None:
+            return None
+        return ('groupby', kf[0], kf[1], it.args[0])
+    if isinstance(it, ast.Name) and it.id == p and isinstance(gen.target, ast.Name):
+        ev = gen.target.id
+        single = (isinstance(v.value, ast.List) and len(v.value.elts) == 1 and isinstance(v.value.elts[0], ast.Name) and v.value.elts[0].id == ev) \
+            or (isinstance(v.value, ast.Name) and v.value.id == ev)
+        if single and ev in pf.names_in(v.key):
+            return ('keyed', ev, v.key, it)
+    return None
+
+
+def _key_reads_only(e: ast.AST, elem: str, cm: cf.ClassModel, fields_not: Tuple[str, ...] = ('path',)) -> bool:
+    """The key is computed from fields of the element other than its (unique) path, attributes of self and constants: two different inputs can share it."""
+    e = _InlineExprHelpers(cm).visit(_subst(e, {}))
+    for n in ast.walk(e):
+        if isinstance(n, ast.Name) and isinstance(n.ctx, ast.Load) and n.id == elem:
+            par_ok = any(isinstance(a, ast.Attribute) and a.value is n and a.attr not in fields_not for a in ast.walk(e))
+            if not par_ok:
+                return False
+    return elem in pf.names_in(e)
+
+
+def _natural_key(key_param: str, key_expr: ast.AST, entry: ast.AST, fn: pf.FuncDef, records: Dict[str, List[str]]) -> Optional[ast.AST]:
+    """The constructor's key of the entry a step stores: the key expression with its parameter replaced by the stored entry (a name, or a record
+    constructor call whose fields are substituted)."""
+    ent = pf.expand_locals(fn, entry)
+    if isinstance(ent, ast.Name):
+        return _subst(key_expr, {key_param: ent})
+    if isinstance(ent, ast.Call) and pf.dotted(ent.func) in records:
+        fields = records[pf.dotted(ent.func)]  # type: ignore[index]
+        vals: Dict[str, ast.AST] = dict(zip(fields, ent.args))
+        for k in ent.keywords:
+            if k.arg is None:
+                return None
+            vals[k.arg] = k.value
+        import copy as _copy
+
+        class _F(ast.NodeTransformer):
+            bare = False
+
+            def visit_Attribute(self, node: ast.Attribute):
+                if isinstance(node.value, ast.Name) and node.value.id == key_param and node.attr in vals:
+                    return ast.copy_location(_copy.deepcopy(vals[node.attr]), node)
+                self.generic_visit(node)
+                return node
+
+            def visit_Name(self, node: ast.Name):
+                if node.id == key_param:
+                    _F.bare = True
+                return node
+        _F.bare = False
+        out = _F().visit(_copy.deepcopy(key_expr))
+        return None if _F.bare else ast.fix_missing_locations(out)
+    return None
+
+
+def _bin_producers(ctx: Ctx, m: pf.Module, cm: cf.ClassModel, slot: str, key_param: str, key_expr: ast.AST) -> Tuple[List[str], List[str], int]:
+    """Compare the bin every step stores an entry under (`self.<slot>[K].append(X)`) with the constructor's key of that entry.
+    Returns (sites whose stored bin depends on state other than the entry, sites whose bin only differs in form, sites that agree)."""
+    records = cf.named_tuples(m)
+    other: List[str] = []
+    differs: List[str] = []
+    agree = 0
+    for rn in _step_roots(cm):
+        r = _root(m, rn)
+        for c in pf.calls_in(r.fn):
+            if not (isinstance(c.func, ast.Attribute) and c.func.attr == 'append' and isinstance(c.func.value, ast.Subscript) and cf.self_attr(c.func.value.value) == slot
+                    and len(c.args) == 1 and not isinstance(c.func.value.slice, ast.Slice)):
+                continue
+            nat = _natural_key(key_param, key_expr, c.args[0], r.fn, records)
+            ctx.need(nat is not None, f'{F}::{CLS}.{rn}: cannot tell which entry `{pf.nsrc(c)[:60]}` stores')
+            nat_nf = _key_nf(pf.expand_locals(r.fn, nat), r.cm)
+            nat_names = {pf.nsrc(x) for x in ast.walk(pf.expand_locals(r.fn, nat)) if isinstance(x, (ast.Name, ast.Attribute))}
+            stored = c.func.value.slice
+            alts: List[ast.AST] = [stored]
+            if isinstance(stored, ast.Name):
+                ds = [d for d in pf.assignments(r.fn).get(stored.id, [])]
+                if ds and all(isinstance(d, ast.expr) for d in ds):
+                    alts = list(ds)  # type: ignore[arg-type]
+            for alt in alts:
+                ex = pf.expand_locals(r.fn, alt)
+                if _key_nf(ex, r.cm) == nat_nf:
+                    agree += 1
+                    continue
+                names = {pf.nsrc(x) for x in ast.walk(_InlineExprHelpers(r.cm).visit(_subst(ex, {}))) if isinstance(x, (ast.Name, ast.Attribute)) and isinstance(x.ctx, ast.Load)}
+                extra = sorted(n for n in names - nat_names if not any(n == k or k.startswith(n + '.') for k in nat_names) and n.split('.')[0] not in ('math',)
+                               and n not in ('floor', 'log', 'max', 'min', 'int', 'ceil', 'len', 'self'))
+                txt = f'{rn} stores `{pf.nsrc(c.args[0])[:50]}` under `{pf.nsrc(alt)[:40]}` (line {c.lineno})'
+                if extra:
+                    other.append(txt + f', computed from {extra[:3]} and not from the entry itself')
+                else:
+                    differs.append(txt + f', the constructor files the same entry under `{pf.nsrc(nat)[:60]}`')
+    return other, differs, agree
+
+
+def _flatten_of(e: ast.AST, slot: str) -> Optional[str]:
+    """How to_dict lists the entries of the binned slot: 'all' when every entry of every bin is listed (grouped by stored bin), a problem text when
+    entries are visibly dropped, None when the expression is not recognised."""
+    def dict_iter(x: ast.AST) -> Optional[str]:
+        """'keys' / 'values' when x iterates all keys / all values of self.<slot> (any order)."""
+        while isinstance(x, ast.Call) and pf.dotted(x.func) in ('sorted', 'reversed', 'list', 'tuple') and x.args:
+            x = x.args[0]
+        if cf.self_attr(x) == slot:
+            return 'keys'
+        if isinstance(x, ast.Call) and isinstance(x.func, ast.Attribute) and cf.self_attr(x.func.value) == slot and not x.args:
+            return {'keys': 'keys', 'values': 'values', 'items': 'items'}.get(x.func.attr)
+        return None
+    if isinstance(e, ast.Call) and pf.dotted(e.func) in ('list', 'tuple') and len(e.args) == 1:
+        e = e.args[0]
+    if isinstance(e, ast.Call) and (pf.dotted(e.func) or '').endswith('chain.from_iterable') and len(e.args) == 1:
+        return 'all' if dict_iter(e.args[0]) == 'values' else None
+    if isinstance(e, (ast.ListComp, ast.GeneratorExp)) and len(e.generators) == 2:
+        g1, g2 = e.generators
+        if g1.ifs or g2.ifs:
+            return f'the comprehension filters the entries (`if {pf.nsrc((g1.ifs + g2.ifs)[0])[:50]}`)'
+        if not (isinstance(g2.target, ast.Name) and isinstance(e.elt, ast.Name) and e.elt.id == g2.target.id):
+            return None
+        kind = dict_iter(g1.iter)
+        inner = g2.iter
+        if kind == 'keys' and isinstance(g1.target, ast.Name):
+            if isinstance(inner, ast.Subscript) and isinstance(inner.slice, ast.Slice) and cf.self_attr(inner.value.value if isinstance(inner.value, ast.Subscript) else None) == slot:
+                return f'only the slice `{pf.nsrc(inner)[:50]}` of every bin is listed'
+            if isinstance(inner, ast.Subscript) and cf.self_attr(inner.value) == slot and isinstance(inner.slice, ast.Name) and inner.slice.id == g1.target.id:
+                return 'all'
+            return None
+        if kind is None:
+            x = g1.iter
+            while isinstance(x, ast.Call) and pf.dotted(x.func) in ('sorted', 'reversed', 'list', 'tuple') and x.args:
+                x = x.args[0]
+            if isinstance(x, ast.Subscript) and isinstance(x.slice, ast.Slice):
+                y = x.value
+                while isinstance(y, ast.Call) and pf.dotted(y.func) in ('sorted', 'reversed', 'list', 'tuple') and y.args:
+                    y = y.args[0]
+                if dict_iter(y) is not None:
+                    return f'only the bins `{pf.nsrc(g1.iter)[:50]}` are listed'
+            return None
+        if kind == 'values' and isinstance(g1.target, ast.Name) and isinstance(inner, ast.Name) and inner.id == g1.target.id:
+            return 'all'
+        if kind == 'items' and isinstance(g1.target, ast.Tuple) and len(g1.target.elts) == 2 and isinstance(inner, ast.Name) \
+                and isinstance(g1.target.elts[1], ast.Name) and inner.id == g1.target.elts[1].id:
+            return 'all'
+    return None
+
+
+
+def _regroup_verdict(ctx: Ctx, m: pf.Module, cm: cf.ClassModel, slot: str, p: str, cons: str, st: ast.stmt, rg, init_i: pf.FuncDef) -> Tuple[bool, ast.AST, str]:
+    """Does a recognised regrouping of parameter `p` keep every element?"""
+    kind, elem, key, it = rg
+    if kind == 'keyed':
+        ctx.need(_key_reads_only(key, elem, cm), f'{cons}: cannot tell whether two elements of `{p}` can share the key `{pf.nsrc(key)[:50]}`')
+        return (False, st, f'`{pf.nsrc(st)[:70]}` keeps one element per key: of all elements of `{p}` that share a bin (two datasets with the same sample count do) '
+                           f'only the last survives')
+    # groupby: one group per RUN of equal keys; building a dict from the groups keeps the last run of every key
+    src = it
+    if isinstance(src, ast.Call) and pf.dotted(src.func) == 'sorted' and src.args and isinstance(src.args[0], ast.Name) and src.args[0].id == p:
+        k2 = next((k.value for k in src.keywords if k.arg == 'key'), None)
+        kf2 = _key_function(k2, cm) if k2 is not None else None
+        ctx.need(kf2 is not None, f'{cons}: cannot compare the sort key of `{pf.nsrc(src)[:50]}` with the grouping key')
+        same = _key_nf(_subst(kf2[1], {kf2[0]: ast.Name(id='_e', ctx=ast.Load())}), cm) == _key_nf(_subst(key, {elem: ast.Name(id='_e', ctx=ast.Load())}), cm)
+        ctx.need(same, f'{cons}: `{pf.nsrc(src)[:50]}` sorts by another key than the grouping key; whether equal grouping keys end up adjacent is not decided')
+        return (True, st, '')
+    ctx.need(isinstance(src, ast.Name) and src.id == p, f'{cons}: unrecognised groupby source `{pf.nsrc(src)[:50]}`')
+    # order-sensitive: every element is kept only if the list arrives with equal keys adjacent.  The constructor is also what the decoder calls
+    # with the list to_dict wrote, which is grouped by the bin each entry was STORED under
+    td = cm.methods.get('to_dict')
+    ctx.need(td is not None, f'anchor vanished: {CLS}.to_dict')
+    _sp, param_of_slot, _ws, _un = _init_param_map(m, cm.methods['__init__'])
+    dkeys = {k.value: v for k, v in zip(_dict_return(td, f'{F}::{CLS}.to_dict').keys, _dict_return(td, f'{F}::{CLS}.to_dict').values)
+             if isinstance(k, ast.Constant)}
+    ctx.need(p in dkeys and _flatten_of(dkeys[p], slot) == 'all', f'{cons}: how to_dict lists `{p}` is not recognised')
+    other, differs, agree = _bin_producers(ctx, m, cm, slot, elem, key)
+    ctx.need(other, f'{cons}: `{pf.nsrc(st)[:60]}` keeps only the LAST run of every key; the steps store entries under the same key ({agree} site(s)'
+             + (f'; differing in form only: {differs[:1]}' if differs else '') + '), whether every caller passes a list with equal keys adjacent is not decided')
+    return (False, st, f'`{pf.nsrc(st)[:90]}` makes one group per RUN of equal keys and the dict keeps only the last run of a key, so a list in which two datasets of one '
+                       f'bin are separated by a dataset of another bin loses the earlier ones. A saved plan is such a list: {other[0]}; to_dict lists the entries by '
+                       f'the bin they are stored under, the decoder hands that list to this constructor, which re-bins by `{pf.nsrc(key)[:60]}` - e.g. stored bins '
+                       f'2,2,1,1 holding entries whose own bins are 1,2,1,1: the first entry (a merged intermediate and every input in it) is dropped on resume')
+
+
 def check_ctor_inputs(ctx: Ctx, m: pf.Module, cm: cf.ClassModel, ser: List[str]) -> None:
     """The constructor (which also rebuilds the object from a saved plan) keeps every input it is given: a list parameter is stored whole, or
     every element of it is appended unconditionally."""
@@ -1607,13 +1978,74 @@ def check_ctor_inputs(ctx: Ctx, m: pf.Module, cm: cf.ClassModel, ser: List[str])
                     and v.generators[0].ifs and pf.nsrc(v.elt) == pf.nsrc(v.generators[0].target):
                 verdicts.append((False, st, f'`{pf.nsrc(st)[:70]}` filters `{p}`'))
             elif p in pf.names_in(v):
-                raise AnalysisError(f'{cons}: unrecognised `{pf.nsrc(st)[:70]}`')
+                rg = _regroup(v, p, cm)
+                if rg is None:
+                    raise AnalysisError(f'{cons}: unrecognised `{pf.nsrc(st)[:70]}`')
+                verdicts.append(_regroup_verdict(ctx, m, cm, slot, p, cons, st, rg, init_i))
+        # `self.<slot>.update(<regrouping of p>)` / `.extend(p)` outside a loop
+        for c in pf.calls_in(init_i):
+            if isinstance(c.func, ast.Attribute) and c.func.attr in ('update', 'extend') and cf.self_attr(c.func.value) == slot and len(c.args) == 1 \
+                    and p in pf.names_in(c.args[0]) and not any(any(y is c for y in ast.walk(lp)) for lp in loops):
+                a0 = c.args[0]
+                if isinstance(a0, ast.Name) and a0.id == p and c.func.attr == 'extend':
+                    verdicts.append((True, c, ''))
+                    continue
+                rg = _regroup(a0, p, cm)
+                if rg is None:
+                    raise AnalysisError(f'{cons}: unrecognised `{pf.nsrc(c)[:70]}`')
+                verdicts.append(_regroup_verdict(ctx, m, cm, slot, p, cons, c, rg, init_i))
         for lp in loops:
-            if not (isinstance(lp.iter, ast.Name) and lp.iter.id == p):
-                if p in pf.names_in(lp.iter):
+            it = lp.iter
+            while isinstance(it, ast.Call) and pf.dotted(it.func) in ('sorted', 'reversed', 'list', 'tuple', 'iter') and it.args:
+                it = it.args[0]  # a reordering / copy of the whole list still visits every element
+            if isinstance(it, ast.Call) and (pf.dotted(it.func) or '').split('.')[-1] == 'groupby' and it.args and p in pf.names_in(it.args[0]) \
+                    and isinstance(lp.target, ast.Tuple) and len(lp.target.elts) == 2 and all(isinstance(x, ast.Name) for x in lp.target.elts):
+                # `for k, run in groupby(p, key=K): self.<slot>[k] = list(run)` (the last run of a key wins) / `.extend(run)` (every run is kept)
+                kvar, gvar = lp.target.elts[0].id, lp.target.elts[1].id  # type: ignore[attr-defined]
+                keyarg = it.args[1] if len(it.args) > 1 else next((k.value for k in it.keywords if k.arg == 'key'), None)
+                kf = _key_function(keyarg, cm) if keyarg is not None else None
+                body = [x for x in lp.body if not (isinstance(x, ast.Expr) and isinstance(x.value, ast.Constant))]
+                ctx.need(kf is not None and len(body) == 1, f'{cons}: unrecognised groupby loop `{pf.nsrc(lp)[:70]}`')
+                b = body[0]
+
+                def run_of(x: ast.AST) -> bool:
+                    return (isinstance(x, ast.Name) and x.id == gvar) or (isinstance(x, ast.Call) and pf.dotted(x.func) in ('list', 'tuple') and len(x.args) == 1
+                                                                          and isinstance(x.args[0], ast.Name) and x.args[0].id == gvar)
+
+                def bin_of(x: ast.AST) -> bool:
+                    return isinstance(x, ast.Subscript) and cf.self_attr(x.value) == slot and isinstance(x.slice, ast.Name) and x.slice.id == kvar
+                if isinstance(b, ast.Assign) and len(b.targets) == 1 and bin_of(b.targets[0]) and run_of(b.value) and not isinstance(b.value, ast.Name):
+                    verdicts.append(_regroup_verdict(ctx, m, cm, slot, p, cons, lp, ('groupby', kf[0], kf[1], it.args[0]), init_i))
+                elif (isinstance(b, ast.Expr) and isinstance(b.value, ast.Call) and isinstance(b.value.func, ast.Attribute) and b.value.func.attr == 'extend'
+                      and bin_of(b.value.func.value) and len(b.value.args) == 1 and run_of(b.value.args[0])) \
+                        or (isinstance(b, ast.AugAssign) and isinstance(b.op, ast.Add) and bin_of(b.target) and run_of(b.value) and not isinstance(b.value, ast.Name)):
+                    src = it.args[0]
+                    while isinstance(src, ast.Call) and pf.dotted(src.func) in ('sorted', 'reversed', 'list', 'tuple', 'iter') and src.args:
+                        src = src.args[0]
+                    ctx.need(isinstance(src, ast.Name) and src.id == p, f'{cons}: unrecognised groupby source `{pf.nsrc(it.args[0])[:50]}`')
+                    verdicts.append((True, lp, ''))
+                else:
+                    raise AnalysisError(f'{cons}: unrecognised groupby loop body `{pf.nsrc(b)[:70]}`')
+                continue
+            if not (isinstance(it, ast.Name) and it.id == p):
+                if isinstance(it, ast.Subscript) and isinstance(it.slice, ast.Slice) and isinstance(it.value, ast.Name) and it.value.id == p \
+                        and (it.slice.lower is not None or it.slice.upper is not None or it.slice.step is not None):
                     verdicts.append((False, lp, f'the loop runs over `{pf.nsrc(lp.iter)[:50]}`, not over all of `{p}`'))
+                elif p in pf.names_in(lp.iter):
+                    raise AnalysisError(f'{cons}: unrecognised loop over `{pf.nsrc(lp.iter)[:50]}`')
                 continue
             adds = [c for c in pf.calls_in(lp) if isinstance(c.func, ast.Attribute) and c.func.attr in ('append', 'add') and _self_attr_root(c.func.value) == slot]
+            # `self.<slot>[K(x)] = [x]` / `= x` in the loop: every element REPLACES the bin instead of joining it
+            over = [x for x in pf.walk_shallow(lp) if isinstance(x, ast.Assign) and len(x.targets) == 1 and isinstance(x.targets[0], ast.Subscript)
+                    and cf.self_attr(x.targets[0].value) == slot and isinstance(lp.target, ast.Name)
+                    and ((isinstance(x.value, ast.List) and len(x.value.elts) == 1 and isinstance(x.value.elts[0], ast.Name) and x.value.elts[0].id == lp.target.id)
+                         or (isinstance(x.value, ast.Name) and x.value.id == lp.target.id))]
+            if over and not adds:
+                key = over[0].targets[0].slice  # type: ignore[attr-defined]
+                ctx.need(_key_reads_only(key, lp.target.id, cm), f'{cons}: cannot tell whether two elements of `{p}` can share the key `{pf.nsrc(key)[:50]}`')
+                verdicts.append((False, lp, f'`{pf.nsrc(over[0])[:70]}` replaces the bin by the current element: of all elements of `{p}` that share a bin '
+                                            f'(two datasets with the same sample count do) only the last is kept'))
+                continue
             ctx.need(len(adds) == 1 and isinstance(lp.target, ast.Name), f'{cons}: unrecognised loop')
             top = any(isinstance(st, ast.Expr) and st.value is adds[0] for st in lp.body)
             same = len(adds[0].args) == 1 and isinstance(adds[0].args[0], ast.Name) and adds[0].args[0].id == lp.target.id
@@ -1892,11 +2324,285 @@ def check_plan_identity(ctx: Ctx, m: pf.Module) -> None:
                   f'and resumes it (maybe_load_from_saved_path re-applies only {sorted(overrides)}) - the output is built from the other call\'s inputs', m.path, k.value.lineno)
 
 
+# ---------------------------------------------------------------------------------------------------------------------------
+# R12: the plan is only ever saved in a state from which a resume uses every input once
+# ---------------------------------------------------------------------------------------------------------------------------
+_SAVERS: Set[str] = {'save'}
+
+
+def _is_save_call(c: ast.Call, recv: str) -> bool:
+    """`self.save()`, a call of a method that (transitively) saves, or a direct dump of the object (`json.dump(self, ...)`, e.g. `save` inlined)."""
+    if isinstance(c.func, ast.Attribute) and cf.self_attr(c.func, recv) in _SAVERS:
+        return True
+    return (pf.dotted(c.func) or '') in ('json.dump', 'json.dumps') and bool(c.args) and isinstance(c.args[0], ast.Name) and c.args[0].id == recv
+
+
+def _node_saves(n: pf.Node, recv: str) -> bool:
+    return any(_is_save_call(c, recv) for c in pf.node_calls(n))
+
+
+def _saver_methods(cm: cf.ClassModel, exclude: Set[str]) -> Set[str]:
+    """Methods through which the plan reaches the save path: `save` and every helper that calls one of them (methods that run steps themselves,
+    such as run(), are not helpers and are analysed as callers instead)."""
+    out = {'save'}
+    changed = True
+    while changed:
+        changed = False
+        for name, f in cm.methods.items():
+            if name in out or name in exclude or not f.args.args:
+                continue
+            recv = f.args.args[0].arg
+            if any((isinstance(c.func, ast.Attribute) and cf.self_attr(c.func, recv) in out)
+                   or ((pf.dotted(c.func) or '') in ('json.dump', 'json.dumps') and c.args and isinstance(c.args[0], ast.Name) and c.args[0].id == recv)
+                   for c in pf.calls_in(f, into_nested_defs=True)):
+                out.add(name)
+                changed = True
+    return out
+
+
+def _halfway_region(r: _Root, pending: Set[str], ser: List[str], out_slot: str):
+    """(removal nodes, commit nodes, dirty nodes) of one step function with its helpers inlined.  A removal takes entries out of a pending
+    list of the plan; a commit records a dataset in the plan or writes the final output; a node is dirty when it can execute after a removal and
+    before any commit (all edges, exceptional ones included)."""
+    g = r.g
+    removals: List[pf.Node] = []
+    commits: List[pf.Node] = []
+    for attr, node, how in _mutations(r.fn):
+        if attr not in pending:
+            continue
+        if isinstance(node, ast.Call) and isinstance(node.func, ast.Attribute) and node.func.attr in PLAN_ADD:
+            continue
+        removals += g.node_of(node)
+    for c in pf.calls_in(r.fn):
+        if not isinstance(c.func, ast.Attribute):
+            continue
+        if c.func.attr in PLAN_ADD and _self_attr_root(c.func.value) in ser and c.args:
+            commits += g.node_of(c)
+            # a loop whose body records the datasets stands for the recording (zero iterations only when nothing was produced)
+            commits += [n for n in g.nodes if n.kind == 'loop' and n.ast is not None and any(x is c for x in ast.walk(n.ast))]
+        elif c.func.attr in WRITERS:
+            pa = _path_arg(c)
+            if pa is not None:
+                v = r.sym.ev(pa, r.fn)
+                if v == ('slot', out_slot) or v == ('list', ('slot', out_slot)):
+                    commits += g.node_of(c)
+    cids = {n.id for n in commits}
+    dirty: Dict[int, pf.Node] = {}
+    work = [m for n in removals for m, _lab in n.succ]
+    while work:
+        n = work.pop()
+        if n.id in dirty or n.id in cids or n is g.exit or n is g.raise_exit:
+            continue
+        dirty[n.id] = n
+        work += [m for m, _lab in n.succ]
+    return removals, commits, list(dirty.values())
+
+
+def _guarded_only_by_local_flags(g: pf.CFG, seeds: List[pf.Node], goal: pf.Node) -> bool:
+    """True when every path seeds -> goal passes a test that reads a local name (a flag such as `ok`): whether that guard excludes the failed-step
+    case is not decided here."""
+    def flag_test(n: pf.Node) -> bool:
+        return n.kind == 'test' and n.ast is not None and any(isinstance(x, ast.Name) and isinstance(x.ctx, ast.Load) and x.id not in ('self', 'True', 'False', 'None')
+                                                            for x in ast.walk(n.ast) if not isinstance(x, ast.Call))
+    for s in seeds:
+        if s is goal or (not flag_test(s) and g.path_avoiding(s, lambda x: x is goal, flag_test) is not None):
+            return False
+    return True
+
+
+def check_save_consistency(ctx: Ctx, m: pf.Module, cls: ast.ClassDef, ser: List[str]) -> None:
+    """A step takes its inputs out of the plan first and puts the merged dataset back (or writes the final output) last.  In between the in-memory
+    plan describes neither the state before the step nor the state after it, so it must never reach the save path: not by a save inside the step,
+    not by a save that runs when the step fails (finally / except / retry loop), not by returning normally with the failure swallowed."""
+    cm = cf.ClassModel(m, CLS)
+    slot_of_param, _pos, _ws, _un = _init_param_map(m, cm.methods['__init__'])
+    ctx.need('output_path' in slot_of_param, f'{F}::{CLS}.__init__: output_path parameter not found')
+    out_slot = slot_of_param['output_path']
+    root_names = _step_roots(cm)
+    roots = [_root(m, rn) for rn in root_names]
+    ctx.need(roots, f'{CLS}.step calls no step function')
+    pending: Set[str] = set()
+    for rn in root_names:
+        for st in pf.walk_shallow(cm.methods[rn]):
+            if isinstance(st, ast.Assign) and isinstance(st.value, ast.Subscript) and isinstance(st.value.slice, ast.Slice):
+                sl = _self_attr_root(st.value.value)
+                if sl is not None and sl in ser:
+                    pending.add(sl)
+    ctx.need(pending, f'{F}::{CLS}: no pending list found in {root_names}')
+    # helpers that save (a method that itself drives the steps is a caller, not a saver)
+    drivers: Set[str] = set(root_names)
+    grew = True
+    while grew:
+        grew = False
+        for name, f in cm.methods.items():
+            if name not in drivers and f.args.args and any(isinstance(c.func, ast.Attribute) and cf.self_attr(c.func, f.args.args[0].arg) in drivers for c in pf.calls_in(f)):
+                drivers.add(name)
+                grew = True
+    _SAVERS.clear()
+    _SAVERS.update(_saver_methods(cm, drivers))
+    exc_dirty: Dict[str, str] = {}   # method -> why an exception can leave it with a half-way plan
+    norm_dirty: Dict[str, str] = {}  # method -> why it can return normally with a half-way plan
+    for r in roots:
+        ctx.need(not r.il.skipped, f'{F}::{CLS}.{r.name}: helper(s) that could not be inlined: {r.il.skipped[:3]}')
+        recv = r.fn.args.args[0].arg
+        removals, commits, dirty = _halfway_region(r, pending, ser, out_slot)
+        cons = f'{F}::{CLS}.{r.name}'
+        ctx.need(removals and commits, f'{cons}: removal / recording of plan entries not recognised')
+        first = min(removals, key=lambda n: n.lineno)
+        raisers = sorted((n for n in dirty if n.kind != 'except' and pf.node_calls(n)), key=lambda n: n.lineno)
+        writer = [n for n in raisers if any(isinstance(c.func, ast.Attribute) and c.func.attr in WRITERS for c in pf.node_calls(n))]
+        if raisers:
+            wn = (writer or raisers)[0]
+            exc_dirty[r.name] = (f'{r.name} takes its inputs out of the plan (`{first.text()[:60]}`, line {first.lineno}) before `{wn.text()[:60]}` (line {wn.lineno}) '
+                                 f'and puts the result back only afterwards (`{max(commits, key=lambda n: n.lineno).text()[:50]}`)')
+        # (a) no save inside the half-way region
+        hit = [n for n in dirty if _node_saves(n, recv)]
+        ctx.check(not hit, 'R12', cons + '::no save between taking the inputs and recording the result',
+                  f'{r.name} saves the plan (`{hit[0].text()[:60] if hit else ""}`) after `{first.text()[:60]}` removed the inputs of this step from it and before the merged '
+                  f'dataset is recorded: a process that stops after this save resumes from a plan that lists neither those inputs nor anything built from them - '
+                  f'they are missing from the output', m.path, hit[0].lineno if hit else r.fn.lineno, detail={'halfway_nodes': len(dirty), 'can_fail_halfway': bool(raisers)})
+        # (b) no normal return with the plan half-way (a handler that swallows the failure)
+        p = None
+        for n in removals:
+            p = p or r.g.path_avoiding(n, lambda x: x is r.g.exit, lambda x: x in commits)
+        if p is not None:
+            norm_dirty[r.name] = f'{r.name} can return normally with its inputs removed and nothing recorded (path {[repr(x) for x in p][-4:]})'
+            ctx.bad('R12', cons + '::returns only with the result recorded', norm_dirty[r.name] + ': run() then saves that plan and carries on; the inputs of the '
+                    'failed step are in no dataset', m.path, p[-2].lineno if len(p) > 1 else r.fn.lineno)
+    # (c) callers: a save must not be reachable once a step has failed (or returned) half-way
+    callers = {n: f for n, f in cm.methods.items() if n not in root_names and f.args.args and 'staticmethod' not in pf.decorator_names(f)}
+    reported: Set[str] = set()
+    bad_callers: Set[str] = set()
+    decided: Set[Tuple[str, int]] = set()
+    for _round in range(len(callers) + 1):
+        changed = False
+        for name, f in callers.items():
+            recv = f.args.args[0].arg
+            g = pf.cfg(f)
+            for n in g.nodes:
+                if n.ast is None:
+                    continue
+                for c in pf.node_calls(n):
+                    callee = cf.self_attr(c.func, recv) if isinstance(c.func, ast.Attribute) else None
+                    if callee is None or callee == name:
+                        continue
+                    seeds: List[pf.Node] = []
+                    whys: List[str] = []
+                    if callee in exc_dirty or callee in norm_dirty:
+                        decided.add((name, n.id))
+                    if callee in exc_dirty:
+                        ex = [t for t, lab in n.succ if lab == 'exc']
+                        whys.append(exc_dirty[callee])
+                        if not ex and name not in exc_dirty:
+                            exc_dirty[name] = f'{name} lets a failure of self.{callee}() propagate; ' + exc_dirty[callee]
+                            changed = True
+                        seeds += ex
+                    if callee in norm_dirty:
+                        seeds += [t for t, lab in n.succ if lab != 'exc']
+                        whys.append(norm_dirty[callee])
+                    if not seeds:
+                        continue
+                    reach: Dict[int, pf.Node] = {}
+                    work = list(seeds)
+                    while work:
+                        x = work.pop()
+                        if x.id in reach:
+                            continue
+                        reach[x.id] = x
+                        work += [t for t, _lab in x.succ]
+                    if g.raise_exit.id in reach and name not in exc_dirty:
+                        exc_dirty[name] = f'{name} re-raises a failure of self.{callee}(); ' + whys[0]
+                        changed = True
+                    saves = sorted((x for x in reach.values() if x.ast is not None and _node_saves(x, recv)), key=lambda x: x.lineno)
+                    if g.exit.id in reach and not saves and name not in norm_dirty:
+                        norm_dirty[name] = f'{name} returns normally after self.{callee}() failed half-way; ' + whys[0]
+                        changed = True
+                    cons = f'{F}::{CLS}.{name}::no save after a failed self.{callee}()'
+                    if saves and cons not in reported:
+                        sv = saves[0]
+                        ctx.need(not _guarded_only_by_local_flags(g, seeds, sv), f'{cons}: `{sv.text()[:40]}` (line {sv.lineno}) is reachable after a failure of '
+                                 f'self.{callee}() only through tests of local flags; whether they exclude the failed-step case is not decided')
+                        via = 'a finally block / exception handler' if callee in exc_dirty else 'the statements after the call'
+                        ctx.bad('R12', cons, f'{name} executes `{sv.text()[:40]}` (line {sv.lineno}) when `{n.text()[:40]}` (line {n.lineno}) has failed ({via}): ' + whys[0] +
+                                '. History: a step raises while writing its dataset (storage error, pre-empted job, Ctrl-C); the plan written on the way out lists '
+                                'neither the inputs of that step nor a dataset built from them; load_combiner / new_combiner resume from it and finish "successfully" with '
+                                'an output that lacks those inputs (or, when the final write failed, with a plan that is already `finished`: no dataset at all)',
+                                m.path, sv.lineno, extra=[repr(x) for x in (g.path_avoiding(seeds[0], lambda y: y is sv, lambda y: False) or [])][:8])
+                        reported.add(cons)
+                        bad_callers.add(name)
+        if not changed:
+            break
+    # every save site of a caller of the steps is accounted for
+    for name, f in callers.items():
+        recv = f.args.args[0].arg
+        g = pf.cfg(f)
+        calls_steps = any(cf.self_attr(c.func, recv) in exc_dirty or cf.self_attr(c.func, recv) in norm_dirty
+                          for c in pf.calls_in(f) if isinstance(c.func, ast.Attribute))
+        if not calls_steps:
+            continue
+        if name not in bad_callers:
+            n_saves = len([x for x in g.nodes if x.ast is not None and _node_saves(x, recv)])
+            ctx.ok('R12', f'{F}::{CLS}.{name}::no save after a failed step', {'save_nodes': n_saves, 'propagates_failure': name in exc_dirty})
+    ctx.unit('halfway_callers', len(decided))
+    # (d) code outside the class that drives a combiner: `c.run()` / `c.step()` under a try whose handler / finally calls `c.save()`
+    drive = {n for n in ('run', 'step') if n in exc_dirty} | {n for n in root_names if n in exc_dirty}
+    mods = [m]
+    if ctx.tier == 'thorough':
+        for rel in pf.walk_py(['hail/python/hail']):
+            if rel == F:
+                continue
+            try:
+                src = read_repo(rel)
+            except AnalysisError:
+                continue
+            if 'combiner' in src and ('.save()' in src):
+                try:
+                    mods.append(pf.load(rel))
+                except AnalysisError:
+                    continue
+    n_ext = 0
+    for mo in mods:
+        for q, fn in mo.functions():
+            if mo is m and q.startswith(CLS + '.') and q.count('.') == 1 and 'staticmethod' not in pf.decorator_names(fn):
+                continue
+            if not any(isinstance(c.func, ast.Attribute) and c.func.attr in drive and isinstance(c.func.value, ast.Name) for c in pf.calls_in(fn)):
+                continue
+            g = pf.cfg(fn)
+            for n in g.nodes:
+                if n.ast is None:
+                    continue
+                for c in pf.node_calls(n):
+                    if not (isinstance(c.func, ast.Attribute) and c.func.attr in drive and isinstance(c.func.value, ast.Name)):
+                        continue
+                    n_ext += 1
+                    obj = c.func.value.id
+                    seeds = [t for t, lab in n.succ if lab == 'exc']
+                    reach: Dict[int, pf.Node] = {}
+                    work = list(seeds)
+                    while work:
+                        x = work.pop()
+                        if x.id not in reach:
+                            reach[x.id] = x
+                            work += [t for t, _lab in x.succ]
+                    saves = sorted((x for x in reach.values() if x.ast is not None and any(isinstance(k.func, ast.Attribute) and k.func.attr in _SAVERS
+                                    and isinstance(k.func.value, ast.Name) and k.func.value.id == obj for k in pf.node_calls(x))), key=lambda x: x.lineno)
+                    cons = f'{mo.rel}::{q}::no {obj}.save() after a failed {obj}.{c.func.attr}()'
+                    if saves:
+                        ctx.need(not _guarded_only_by_local_flags(g, seeds, saves[0]), f'{cons}: reachable only through tests of local flags - not decided')
+                        ctx.bad('R12', cons, f'{q} calls `{saves[0].text()[:40]}` (line {saves[0].lineno}) when `{n.text()[:40]}` has raised: ' + exc_dirty[c.func.attr] +
+                                ' - the plan written on the way out lists neither the inputs of the failed step nor a dataset built from them, a resume loses them',
+                                mo.path, saves[0].lineno)
+                    else:
+                        ctx.ok('R12', cons, {'handlers_reached': len(reach)}, nontrivial=False)
+    ctx.unit('external_step_drivers', n_ext)
+
+
 def run(ctx: Ctx) -> None:
     ctx.explanation = ('Slot / to_dict / __init__ / decoder-hook tables compared key by key; CFG dominance of save over step in run; symbolic components of '
                        'every intermediate output path classified as fresh per object / persisted / reset on reload; interval analysis of the slots that size a '
                        'step through all their writers (constructor guards, property setters, stores on the resume path) with concrete witnesses; take/keep slice '
-                       'pairs of the pending lists compared; the statements of calc_parts interpreted exactly for every (contig length, interval size) in '
+                       'pairs of the pending lists compared; the half-way region of each step (inputs removed, result not yet recorded) computed on its CFG and '
+                       'every save site of the callers shown unreachable from a failure inside it; the constructor\'s re-binning compared with the bins the steps store under; the statements of calc_parts interpreted exactly for every (contig length, interval size) in '
                        '1..80 x 1..80 and for the real mitochondrial contigs.')
     ctx.rule('R1', 'attributes mutated by the step functions are serialised slots (or on the frozen transient list)', 5)
     ctx.rule('R2', 'saved plan complete and loadable: slots <-> to_dict keys <-> __init__ parameters <-> decoder inverses', 45)
@@ -1910,6 +2616,8 @@ def run(ctx: Ctx) -> None:
     ctx.rule('R9', 'the final dataset is written exactly when the plan is exhausted; otherwise the merged dataset is written, then recorded under the written path', 10)
     ctx.rule('R10', 'nothing a saved plan may still reference is deleted (plan entries, the intermediates directory, the plan file)', 2)
     ctx.rule('R11', 'the generated save path is a digest of every argument that defines the plan (a plan found there belongs to the same inputs)', 15)
+    ctx.rule('R12', 'the plan is only saved in a state a resume can continue from: never between a step taking its inputs out of the plan and recording the merged '
+                    'dataset - no save inside that region, none reachable when a step fails (finally / except / retry), no normal return with the failure swallowed', 4)
     ctx.assume('math.ceil(a / b) is modelled with exact rationals (float rounding of very large quotients is not modelled)')
     ctx.assume('hl.Interval(start, end, includes_start, includes_end) denotes the locus positions start..end with the stated closedness')
     ctx.assume('uuid.uuid4 / uuid1 / secrets / os.urandom / clock reads never repeat a value (closed table FRESH in engines/c38facts.py); uuid5 / uuid3 / hashes are functions of their arguments')
@@ -1920,7 +2628,8 @@ def run(ctx: Ctx) -> None:
     ser, _slots = check_slots(ctx, m, cls)
     declined: List[str] = []
     for part in (lambda: check_roundtrip(ctx, m, cls, ser), lambda: check_run(ctx, m, cls), lambda: check_paths(ctx, m, cls, ser, _slots),
-                 lambda: check_progress(ctx, m, cls, ser), lambda: check_plan_identity(ctx, m), lambda: check_partitioning(ctx, m)):
+                 lambda: check_progress(ctx, m, cls, ser), lambda: check_plan_identity(ctx, m), lambda: check_save_consistency(ctx, m, cls, ser),
+                 lambda: check_partitioning(ctx, m)):
         try:
             part()
         except AnalysisError as e:  # keep going: a violation established by another rule must not be masked by a decline here
